@@ -1,0 +1,119 @@
+//go:build verif
+
+package influxql
+
+// C10: splitting a WHERE clause into time range and residual.
+//
+// Times are read through tnano(t): the instant in nanoseconds since the epoch
+// as a mathematical integer; the zero Time (an open end) is the instant
+// -62135596800000000000, which no time built from int64 nanoseconds can equal.
+// A point with timestamp ts lies in range r iff
+//     (r.Min is zero || tnano(r.Min) <= ts) && (r.Max is zero || ts <= tnano(r.Max)).
+
+//@ func (TimeRange).Intersect
+//@   props C10 C13
+//@   safety C13
+//@   modifies fresh
+//@   frameprops C14 C17
+//@   let zero = ZeroTimeNano
+//@   ensures [C10] @meet forallint(ts, iff(((smt("tnano", result.Min) == zero || smt("tnano", result.Min) <= ts) && (smt("tnano", result.Max) == zero || ts <= smt("tnano", result.Max))), ((smt("tnano", t.Min) == zero || smt("tnano", t.Min) <= ts) && (smt("tnano", t.Max) == zero || ts <= smt("tnano", t.Max))) && ((smt("tnano", other.Min) == zero || smt("tnano", other.Min) <= ts) && (smt("tnano", other.Max) == zero || ts <= smt("tnano", other.Max)))))
+//@   ensures [C10] @picks (result.Min == t.Min || result.Min == other.Min) && (result.Max == t.Max || result.Max == other.Max)
+
+// getTimeRange: `value` is the instant of the (reduced) right-hand side; the
+// range returned for each comparison operator contains exactly the timestamps
+// that satisfy `time <op> value`: strict bounds move by one nanosecond.
+//@ func getTimeRange
+//@   props C10 C13
+//@   safety C13
+//@   astparams
+//@   modifies @ast
+//@   frameprops C14 C17
+//@   requires rhs != nil ==> notnil(rhs) && (spec_isExprNode(rhs) || istype(rhs, *NilLiteral))
+//@   let zero = ZeroTimeNano
+//@   let v = smt("tnano", value)
+//@   let lo = smt("tnano", result0.Min)
+//@   let hi = smt("tnano", result0.Max)
+//@   ensures [C10] @litint (result1 == nil && istype(local(rhs), *IntegerLiteral)) ==> v == local(rhs).(*IntegerLiteral).Val
+//@   ensures [C10] @litdur (result1 == nil && istype(local(rhs), *DurationLiteral)) ==> v == int64(local(rhs).(*DurationLiteral).Val)
+//@   ensures [C10] @littime (result1 == nil && istype(local(rhs), *TimeLiteral)) ==> (v == smt("tnano", local(rhs).(*TimeLiteral).Val) && MinTime + 1 <= v && v <= MaxTime)
+//@   ensures [C10] @litkind result1 == nil ==> (istype(local(rhs), *IntegerLiteral) || istype(local(rhs), *DurationLiteral) || istype(local(rhs), *TimeLiteral) || istype(local(rhs), *NumberLiteral))
+//@   ensures [C10] @inrange result1 == nil ==> (MinInt64 <= v && v <= MaxInt64)
+//@   ensures [C10] @gt (result1 == nil && op == GT) ==> forallint(ts, iff((lo == zero || lo <= ts) && (hi == zero || ts <= hi), ts > v))
+//@   ensures [C10] @gte (result1 == nil && op == GTE) ==> forallint(ts, iff((lo == zero || lo <= ts) && (hi == zero || ts <= hi), ts >= v))
+//@   ensures [C10] @lt (result1 == nil && op == LT) ==> forallint(ts, iff((lo == zero || lo <= ts) && (hi == zero || ts <= hi), ts < v))
+//@   ensures [C10] @lte (result1 == nil && op == LTE) ==> forallint(ts, iff((lo == zero || lo <= ts) && (hi == zero || ts <= hi), ts <= v))
+//@   ensures [C10] @eq (result1 == nil && op == EQ) ==> forallint(ts, iff((lo == zero || lo <= ts) && (hi == zero || ts <= hi), ts == v))
+//@   ensures [C10] @ops result1 == nil ==> (op == GT || op == GTE || op == LT || op == LTE || op == EQ)
+//@   ensures [C10] @errzero result1 != nil ==> (lo == zero && hi == zero)
+
+// conditionExpr: one node of the recursive split.
+//   time comparison            -> no residual (nil = true), range from getTimeRange
+//                                 with the operator mirrored when time is on the right
+//   AND / OR of two conditions -> range is the intersection of the children's ranges
+//   parentheses                -> range of the inner condition
+//   anything else              -> open range
+//@ func conditionExpr
+//@   props C10 C13
+//@   safety C13
+//@   astparams
+//@   modifies @ast
+//@   frameprops C14 C17
+//@   requires cond != nil ==> notnil(cond) && (spec_isExprNode(cond) || istype(cond, *NilLiteral))
+//@   let zero = ZeroTimeNano
+//@   let lo = smt("tnano", result1.Min)
+//@   let hi = smt("tnano", result1.Max)
+//@   let isbin = istype(cond, *BinaryExpr)
+//@   let junction = isbin && (cond.(*BinaryExpr).Op == AND || cond.(*BinaryExpr).Op == OR)
+//@   let timeleft = isbin && !junction && istype(cond.(*BinaryExpr).LHS, *VarRef) && libcall("strings.ToLower", cond.(*BinaryExpr).LHS.(*VarRef).Val) == "time"
+//@   let timeright = isbin && !junction && !timeleft && istype(cond.(*BinaryExpr).RHS, *VarRef) && libcall("strings.ToLower", cond.(*BinaryExpr).RHS.(*VarRef).Val) == "time"
+//@   let cop = cond.(*BinaryExpr).Op
+//@   ensures [C10] @nilcond cond == nil ==> (result0 == nil && result2 == nil && lo == zero && hi == zero)
+//@   ensures [C10] @timeresidual (timeleft || timeright) ==> result0 == nil
+//@   ensures [C10] @mirror timeright ==> local(op) == ite(cop == GT, LT, ite(cop == LT, GT, ite(cop == GTE, LTE, ite(cop == LTE, GTE, cop))))
+//@   ensures [C10] @meet (junction && result2 == nil) ==> forallint(ts, iff((lo == zero || lo <= ts) && (hi == zero || ts <= hi), ((smt("tnano", local(lhsTime).Min) == zero || smt("tnano", local(lhsTime).Min) <= ts) && (smt("tnano", local(lhsTime).Max) == zero || ts <= smt("tnano", local(lhsTime).Max))) && ((smt("tnano", local(rhsTime).Min) == zero || smt("tnano", local(rhsTime).Min) <= ts) && (smt("tnano", local(rhsTime).Max) == zero || ts <= smt("tnano", local(rhsTime).Max)))))
+//@   ensures [C10] @paren (istype(cond, *ParenExpr) && result2 == nil) ==> (result1 == local(timeRange) && (local(expr) == nil ==> result0 == nil))
+//@   ensures [C10] @other (isbin && !junction && !timeleft && !timeright) ==> (result2 == nil && lo == zero && hi == zero)
+//@   ensures [C10] @boollit istype(cond, *BooleanLiteral) ==> (result0 == cond && result2 == nil && lo == zero && hi == zero)
+//@   ensures [C10] @errzero result2 != nil ==> result0 == nil
+//@   ensures result0 != nil ==> notnil(result0)
+//@   ensures istype(result0, *ParenExpr) ==> notnil(result0.(*ParenExpr).Expr)
+
+// ConditionExpr: a residual that is the literal true is reported as no residual;
+// the range is the one computed by the split.
+//@ func ConditionExpr
+//@   props C10 C13
+//@   safety C13
+//@   astparams
+//@   modifies @ast
+//@   frameprops C14 C17
+//@   requires cond != nil ==> notnil(cond) && (spec_isExprNode(cond) || istype(cond, *NilLiteral))
+//@   ensures [C10] @range result1 == local(tr) && result2 == local(err)
+//@   ensures [C10] @truemeansnone (istype(result0, *BooleanLiteral)) ==> !result0.(*BooleanLiteral).Val
+
+// open ends read as the extreme representable times
+//@ func (TimeRange).MinTimeNano
+//@   props C10 C13
+//@   safety C13
+//@   modifies fresh
+//@   frameprops C14 C17
+//@   ensures [C10] result == ite(smt("tnano", t.Min) == ZeroTimeNano, MinTime, int64(smt("tnano", t.Min)))
+//@ func (TimeRange).MaxTimeNano
+//@   props C10 C13
+//@   safety C13
+//@   modifies fresh
+//@   frameprops C14 C17
+//@   ensures [C10] result == ite(smt("tnano", t.Max) == ZeroTimeNano, MaxTime, int64(smt("tnano", t.Max)))
+//@ func (TimeRange).MinTime
+//@   props C10 C13
+//@   safety C13
+//@   modifies fresh
+//@   frameprops C14 C17
+//@   ensures [C10] smt("tnano", result) == ite(smt("tnano", t.Min) == ZeroTimeNano, MinTime, smt("tnano", t.Min))
+//@ func (TimeRange).MaxTime
+//@   props C10 C13
+//@   safety C13
+//@   modifies fresh
+//@   frameprops C14 C17
+//@   ensures [C10] smt("tnano", result) == ite(smt("tnano", t.Max) == ZeroTimeNano, MaxTime, smt("tnano", t.Max))
+
+//@ globalinv smt("tnano", minTime) == MinTime && smt("tnano", maxTime) == MaxTime
